@@ -237,7 +237,10 @@ class AquaCropModel:
         self._outputs = Output(self._clock_struct.time_span, self._init_cond.th)
 
         # save model _weather to _init_cond
-        self._weather = self.weather_df.values
+        # the time-stepping code reads the weather records by position: bind the five variables by column name
+        self._weather = self.weather_df[
+            ["MinTemp", "MaxTemp", "Precipitation", "ReferenceET", "Date"]
+        ].values
 
     def run_model(
         self,
